@@ -6,6 +6,7 @@ import ast
 from sa import wiring
 from sa.callgraph import STRONG_KINDS
 from sa.model import AnalysisError, ClassInfo, FunctionInfo, call_name, loc, norm, walk_no_nested
+from sa.dom import view, mentions
 from sa.stack import check_balance
 
 LEVEL_TEXT = ("Static structural proof of necessary conditions: (R14.1) the 17 schema-fault keys are registered with the "
@@ -243,3 +244,29 @@ def run(ctx):
         "hed.schema.schema_validation_util")]
     ns14 = check_no_dropped_issues(ctx, "R14.6", sc14)
     ctx.floor("R14.6", "issue-producing calls in the compliance modules", ns14, 8)
+
+    # ---------------- R14.7: value validators run only for attributes that are declared for the entry's section
+    ctx.rule("R14.7", "attribute validators (which assume the entry kind of their section) are not run for attributes the entry's section does not declare")
+    cta = sv.methods.get("_check_tag_entry_attributes")
+    if cta is None:
+        raise AnalysisError("anchor SchemaValidator._check_tag_entry_attributes vanished")
+    ctx.saw(cta)
+    v7 = view(ctx, cta)
+    runs = [(n_, c) for (n_, c) in v7.calls(lambda c: call_name(c) == "_run_validators")]
+    ctx.floor("R14.7", "validator runs in _check_tag_entry_attributes", len(runs), 1)
+    # evidence that validators are entry-kind specific: members used on the entry that the base entry class does not have
+    base_members = set(ent.methods) | {"attributes", "name", "description", "section_key", "_unknown_attributes", "_section"}
+    specific = set()
+    for f in prog.functions.values():
+        if f.module.name == "hed.schema.schema_attribute_validators" and len(f.params()) >= 2:
+            pn = f.params()[1]
+            for x in walk_no_nested(f.node):
+                if isinstance(x, ast.Attribute) and isinstance(x.value, ast.Name) and x.value.id == pn and x.attr not in base_members:
+                    specific.add("%s.%s" % (f.name, x.attr))
+    for n_, c in runs:
+        g = v7.guard_for(n_, lambda t: mentions(t, "_unknown_attributes"))
+        ctx.check(g is not None or not specific, "R14.7", cta.qualname, c, loc(cta, c),
+                  "validators are run for every attribute an entry carries, also for one that its section does not declare "
+                  "(already reported as unknown); they use members only some entry kinds have (%s), so e.g. `defaultUnits` seeded on a "
+                  "tag makes check_compliance raise AttributeError instead of reporting the fault" % ", ".join(sorted(specific)[:4]),
+                  desc="validators skipped for attributes unknown to the entry's section")
